@@ -9,7 +9,6 @@ package main
 import (
 	"bytes"
 	"fmt"
-	"sort"
 	"strings"
 	"sync"
 	"sync/atomic"
@@ -197,6 +196,7 @@ func streamWorkload(w *W, idx int, writers, txnsPer int, snapshots int) *streamR
 				nrows := 1 + rng.Intn(3)
 				err := r.P.Query(func(txn *column.Txn) error {
 					touched := map[uint32]bool{}
+					var touchOrder []uint32 // blocks in the order this transaction first touched them
 					do := func(op Op) {
 						spec.Ops = append(spec.Ops, op)
 						o := &spec.Ops[len(spec.Ops)-1]
@@ -217,6 +217,9 @@ func streamWorkload(w *W, idx int, writers, txnsPer int, snapshots int) *streamR
 						case "del":
 							o.GotOff, o.HasOff = o.Off, true
 							txn.DeleteAt(o.Off)
+						}
+						if !touched[o.GotOff>>14] {
+							touchOrder = append(touchOrder, o.GotOff>>14)
 						}
 						touched[o.GotOff>>14] = true
 					}
@@ -259,12 +262,9 @@ func streamWorkload(w *W, idx int, writers, txnsPer int, snapshots int) *streamR
 						mine = mine[:len(mine)-1]
 					}
 					// stamp the marker row of every block this transaction changed
-					blocks := make([]uint32, 0, len(touched))
-					for b := range touched {
-						blocks = append(blocks, b)
-					}
-					sort.Slice(blocks, func(i, j int) bool { return blocks[i] < blocks[j] })
-					for _, b := range blocks {
+					// (in first-touch order, so that the marker column visits the blocks in the same - possibly
+					// descending - order as the other columns of the transaction)
+					for _, b := range append([]uint32{}, touchOrder...) {
 						do(at(b<<14, put("tx", tx)))
 					}
 					if abort {
@@ -404,10 +404,29 @@ func (res *streamResult) foldAll(visit func(b uint32, k int, m *Model)) {
 
 func (res *streamResult) oracleFinal() string {
 	counts := map[uint32]int{}
+	applied := map[[2]int64]bool{}
 	for _, c := range res.run.log {
 		counts[c.Block]++
+		applied[[2]int64{c.Tx, int64(c.Block)}] = true
 	}
 	var bad string
+	// a committed transaction whose changes to a block were never applied would be missing from both sides of the fold
+	res.run.specs.Range(func(k, v any) bool {
+		tx := k.(int64)
+		if _, aborted := res.run.aborted.Load(tx); aborted {
+			return true
+		}
+		for b := range changedBlocks(v.(*TxnSpec).Ops) {
+			if !applied[[2]int64{tx, int64(b)}] {
+				bad = fmt.Sprintf("transaction %d (%s) committed, but its changes to block %d were never applied (no commit for that block)", tx, v.(*TxnSpec).String(), b)
+				return false
+			}
+		}
+		return true
+	})
+	if bad != "" {
+		return bad
+	}
 	res.foldAll(func(b uint32, k int, m *Model) {
 		if k == counts[b] && bad == "" {
 			if d := cmpBlock(res.final, m, b); d != "" {
